@@ -530,7 +530,12 @@ def main():
     for p_ in E['required_probes'].get(prop, []):
         if agg['probes'].get(p_, 0) == 0:
             harness_problems.append('required probe %s never fired' % p_)
+    watch_inactive = [cid for cid, x in agg['extra'].items() if isinstance(x, dict) and x.get('watch_oracle_active') is False]
     for f_ in E['required_faults'] + E.get('required_faults_by_prop', {}).get(prop, []):
+        if f_ == 'watch_windows_armed' and watch_inactive and len(watch_inactive) == len(agg['extra']):
+            # data breakpoints unavailable or not trustworthy on this machine (calibration): the watch oracle is demoted to
+            # an observation by the engine and reported as inactive in the evidence - not a vacuous pass of the other oracles
+            continue
         if agg['faults'].get(f_, 0) == 0:
             harness_problems.append('required fault kind %s never fired' % f_)
 
